@@ -178,10 +178,13 @@ def run(rep):
         done = [f.result() for f in futs]
     c05.timed(rep, "engine", t0)
     nhist_obs = 0
+    set_orders = set()
     for kind, what, rs in sorted(done, key=lambda d: (d[0] != "seed", str(d[1]) if d[0] != "seed" else "%04d" % d[1])):
         if kind == "seed":
             for r in rs:
                 obs[r["id"]].append({"src": "seed%d" % what, "log": r["log"], "out": r["out"], "hl": r["hl"], "lay": r["lay"]})
+                if r.get("so"):
+                    set_orders.add(r["so"])
         else:
             for r in rs:
                 if wall_hang(r):            # overloaded machine: this observation is not comparable (counted, not judged)
@@ -235,8 +238,12 @@ def run(rep):
                           "differing": {x: d[x] for x in ("src", "log", "out")},
                           "source": it.get("src") or __import__("harness.render", fromlist=["render"]).render(it["prog"])[0]}, dev="")
     rep.notes["programs_with_layouts_varying_across_seeds"] = len(varied)
-    if not varied:
-        raise Machinery("no program's slot layout varied across hash seeds: the experiment does not exercise what it claims")
+    # Since /repo 806ce9d the compiler assigns slots in sorted order, so layouts no longer vary with the hash seed (before,
+    # at least one program's layout had to vary or the experiment was void). That the seeds are in force is now shown directly:
+    # the processes of different seeds must iterate one fixed set of strings in different orders.
+    if len(set_orders) < 2:
+        raise Machinery("all engine processes iterate a set of strings in the same order: the hash seeds are not in force")
+    rep.notes["distinct_set_iteration_orders_across_processes"] = len(set_orders)
     # the common observation against the reference semantics
     ast_items = [it for it in items if it.get("ref") and "prog" in it]
     recs = [{"id": it["id"], "prog": it["prog"], "log": obs[it["id"]][0]["log"], "out": obs[it["id"]][0]["out"], "pos": []} for it in ast_items]
